@@ -451,11 +451,17 @@ def run_impl_parallel(script, payloads, timeout=900, extra_env=None, workers=Non
 # Context: evidence, findings, violations
 # --------------------------------------------------------------------------
 
-def load_known():
-    p = os.path.join(VERIF, "known_findings.json")
-    if not os.path.exists(p):
-        return []
-    return json.load(open(p)).get("findings", [])
+def load_known(prop=None):
+    """Known findings live in known_findings/<id>.json (one file per property, committed,
+    never written at run time)."""
+    d = os.path.join(VERIF, "known_findings")
+    out = []
+    if not os.path.isdir(d):
+        return out
+    for f in sorted(os.listdir(d)):
+        if f.endswith(".json") and (prop is None or f == prop + ".json"):
+            out += json.load(open(os.path.join(d, f))).get("findings", [])
+    return out
 
 
 class Ctx:
@@ -483,7 +489,7 @@ class Ctx:
         self.assumptions = []
         self.trusted = []
         self.notes = {}
-        self.known = [k for k in load_known() if k.get("property") == prop]
+        self.known = [k for k in load_known(prop) if k.get("property") == prop]
 
     @staticmethod
     def _runroot():
